@@ -137,7 +137,7 @@ func newNTSSCIONWorld(r *simcore.Run, nlisten int) *ntsSCIONWorld {
 	cert, pool := mkCert([]string{keHost}, []string{scSrvIP})
 	w.prov = ntske.NewProvider()
 	w.startServers(nlisten, false, 0, w.prov, false)
-	lst, err := w.net.ListenStream(fmt.Sprintf("%s:%d", scSrvIP, kePort), nil)
+	lst, err := w.net.ListenStream(hp(scSrvIP, kePort), nil)
 	if err != nil {
 		panic(err)
 	}
